@@ -10,7 +10,7 @@ from core import hx, exc_name
 from gen import cut
 
 ID = 'C01'
-MODULES = ['Httoop.Props.C01']
+MODULES = ['Httoop.Props.C01', 'Httoop.Props.C01Headers', 'Httoop.Props.C01Pipeline']
 THEOREMS = [
 	'Httoop.splitOnce_append',
 	'Httoop.contains_append',
@@ -24,9 +24,20 @@ THEOREMS = [
 	'Httoop.Parser.chunked_fragmentation',
 	'Httoop.Parser.c01_lf_witness',
 	'Httoop.Parser.c01_411_witness',
+	'Httoop.Parser.prefix_shape',
+	'Httoop.Parser.parseHeaders_prefix',
+	'Httoop.Parser.parseHeaders_full',
+	'Httoop.Parser.headers_fragmentation',
+	'Httoop.Parser.run_partial',
+	'Httoop.Parser.run_finish',
+	'Httoop.Parser.run_prefix',
+	'Httoop.Parser.feedAll_prefix',
+	'Httoop.Parser.fragmentation_independent',
+	'Httoop.Parser.c01_good_witness',
+	'Httoop.Parser.c01_fragmentation_witness',
 ]
 TRUSTED = [
-	'the whole state machine (start line, header block with eager consumption, hooks) is modelled in Model/Parser.lean and compared with the code call by call under every generated fragmentation; the Lean theorems cover the body framing layer (Content-Length and chunked with trailers), the rest of fragmentation independence is correspondence + the differential oracle',
+	'the whole state machine (start line, header block with eager consumption, hooks) is modelled in Model/Parser.lean and compared with the code call by call under every generated fragmentation; the Lean theorems cover the body framing layer for all inputs (Content-Length and chunked with trailers), the header section for well-formed sections, and the whole loop for well-formed Content-Length pipelines; fragmentation independence on malformed and hostile streams is correspondence + the differential oracle',
 	'zlib, RFC 2047 encoded words and internationalised host names are outside the model (skipped, counted)',
 ]
 ASSUMPTIONS = ['known findings F17 (bare LF selects LF line ends depending on what is in the buffer), F18 (411 depends on pipelined octets in the buffer), F19 (an invalid header line is reported early or late) delimit the domain']
@@ -184,5 +195,7 @@ def finding_still_fails(k):
 LEVEL_TEXT = ('Theorems for the body framing layer, for ALL states, buffers and continuations: a first occurrence found in a buffer is still the first after more octets arrive (splitOnce_append); '
 	'feeding a Content-Length body in two pieces equals feeding it at once; the chunked reader (sizes, extensions, data, terminators, last chunk, trailer section) is stable under extension of the buffer in each of its three outcomes, '
 	'hence its result does not depend on where the stream is cut (chunked_fragmentation) - no bound on chunk count or sizes. The start line / header block / hook layers are in the executable model and compared with the code under every generated fragmentation; '
-	'the known order-dependent decisions (F17, F18, F19) are exhibited by kernel-evaluated witnesses.')
-LEVEL_NOTE = 'Trusted: Lean kernel; the parser model (tested against the code, not verified); extract.py/correspondence. The full-stream theorem over the header layer is open (DESIGN.md C01).'
+	'The HEADER LAYER: a header section as a writer puts it on the wire (pairwise different canonical names, values without CR and outer white space), followed by anything and cut at ANY point - inside a name, a value, between CR and LF, inside the empty line - gives the same result in two calls as in one (headers_fragmentation): the eager consumption of complete lines is characterised in closed form (parseHeaders_prefix: the fields parsed so far + the unconsumed rest, and what is still to come is exactly the section of the other fields). '
+	'THE WHOLE LOOP for well-formed streams (fragmentation_independent, feedAll_prefix): any number of Content-Length framed messages, the stream cut into calls in any way, on either side - exactly those messages are handed out, in order, and after any prefix exactly the messages wholly contained in it; the states in between are characterised (At: inside the start line / header section / body) and every call is shown to lead from one to the next (run_partial, run_finish). '
+	'For arbitrary (malformed, hostile) streams the property is FALSE of the code (F17, F18, F19: kernel-evaluated witnesses); there the model is compared with the code under every generated fragmentation.')
+LEVEL_NOTE = 'Trusted: Lean kernel; the parser model (tested against the code, not verified); extract.py/correspondence. The full-stream theorem holds for well-formed Content-Length pipelines (chunked messages: body-layer theorem only); for arbitrary streams the property is false of the code (F17-F19).'
